@@ -76,6 +76,7 @@ func expandC12(_ *testing.T, seed uint64, tier string) []*core.Plan {
 	p.SetKnob("chunk", r.Pick(0, 0, -1, 1, 2))
 	p.SetKnob("gate", r.Pick(0, 0, 1))
 	p.SetKnob("variant", r.Intn(4))
+	p.SetKnob("mvar", r.Intn(2)) // second half of the malformed-input list
 	p.SetKnob("race", r.Intn(3)) // keep-alive: traffic racing the deadline
 	if r.Chance(1, 6) {
 		p.SetKnob("fullq", 1) // the online observer's session queue is full when the will is published
@@ -250,7 +251,11 @@ func runC12(t *testing.T, p *core.Plan) *core.Result {
 			s.FC.failRecvN = s.FC.recvs + 1
 			s.Send(packet.NewPingreq())
 		case cMalformed:
-			raw := [][]byte{{0x30, 0x02, 0x00}, {0xf0, 0x00}, {0x82, 0x02, 0x00, 0x01}, {0x10, 0xff, 0xff, 0xff, 0xff, 0x7f}}[variant]
+			raws := [][]byte{{0x30, 0x02, 0x00}, {0xf0, 0x00}, {0x82, 0x02, 0x00, 0x01}, {0x10, 0xff, 0xff, 0xff, 0xff, 0x7f},
+				// reserved flag bits set on otherwise empty packets: a DISCONNECT,
+				// PINGREQ or PUBACK look-alike is malformed, not a clean goodbye
+				{0xe1, 0x00}, {0xe8, 0x00}, {0xc2, 0x00}, {0x41, 0x02, 0x00, 0x01}}
+			raw := raws[(variant+4*p.Knob("mvar", 0))%len(raws)]
 			s.SendRaw(raw, "malformed")
 		case cOversized:
 			pb := packet.NewPublish()
@@ -419,6 +424,16 @@ func judgeC12(w *World, s, o1, o2, o3 *Peer, willTag, wq int, wr bool, cause, st
 			seen = e.M
 		}
 	}
+	// "did not send DISCONNECT": what the broker decoded counts only if the peer
+	// really sent a DISCONNECT packet (malformed bytes that a sloppy decoder
+	// takes for one are not a goodbye)
+	sentDisconnect := false
+	for _, e := range s.Sent {
+		if e.P != nil && e.P.Type() == packet.DISCONNECT {
+			sentDisconnect = true
+		}
+	}
+	disconnected = disconnected && sentDisconnect
 	want := 0
 	if accepted && !disconnected {
 		want = 1
